@@ -5,3 +5,14 @@
 
 // owner: group a9. `super::super` is the repository module `filter`.
 use super::super::*;
+
+// ---- read-only accessors (C42/C43) ----
+pub fn estimator<S: KalmanStorageBase>(f: &LinkFilter<S>) -> &EstimatorState<S> {
+    &f.estimation_state
+}
+
+pub fn for_each_filter_link<S: KalmanStorageBase>(f: &LinkFilter<S>, mut g: impl FnMut(LinkId, bool, bool)) {
+    for l in f.links.iter() {
+        g(l.id, l.active, l.link_state.is_tracked());
+    }
+}
